@@ -23,6 +23,11 @@ def schemas():
 def base_documents(ctx, n):
     """valid-by-construction documents over the fixture schemas (single file, or with an imported fragment file)"""
     scs = schemas()
+    # plus seeded schemas (tsgen: interface chains with covariant fields, unions, nested input objects, lists to depth 3, custom scalars,
+    # user directives on executable locations); merged, extension-free models
+    import tsgen as TG
+    for k in range(4):
+        scs.append({"name": "seeded%d" % k, "model": TG.TsGen(ctx.rng).schema()})
     gens = {s["name"]: G2.SchemaDocGen(s["model"], ctx.rng) for s in scs}
     docs = []
     for i in range(n):
@@ -69,7 +74,7 @@ def run(ctx, res):
     res.traces = o.events - len(discards)
     res.evaluations = o.events
     res.distinct_nontrivial = len({json.dumps(e["files"], sort_keys=True) for e in events})
-    res.rule = ("%d seeded valid-by-construction documents over 4 fixture schemas (interfaces incl. interface-implements-interface, unions, "
+    res.rule = ("%d seeded valid-by-construction documents over 4 fixture schemas and 4 seeded schemas (interfaces incl. interface-implements-interface, unions, "
                 "enums, nested input objects with required/default fields, custom scalar, explicit schema block, executable user directive): "
                 "aliases, arguments using every input coercion (Int for Float/ID, single value for list, null), variables with and without "
                 "defaults in nullable and non-null positions, named/inline fragments on every overlapping type pair, imported fragments, "
